@@ -33,6 +33,7 @@ PY = "/venv/bin/python"
 K_WINDOW = "replace:window-placement-choice-nondeterministic"
 K_MEMS = "compile:memories-same-name-order"
 K_EXTS = "compile:externs-same-key-order"
+K_Z3 = "smt:z3-unknown-depends-on-sym-numbering"
 
 
 # ====================================================================== table mirror (messages only)
@@ -166,6 +167,8 @@ def classify(sess_name, tags, a, b):
     tb = b[k][1] if k < len(b) else ""
     op = la.split(":")[0]
     known = [t[len("known:"):] for t in tags if t.startswith("known:")]
+    if "Z3Unknown" in ta or "Z3Unknown" in tb:
+        return [(K_Z3, la, f"session {sess_name}: at `{la}` Z3 answered `unknown` in one environment only", udiff(ta, tb))]
     if known and k < len(a) and k < len(b) and sorted(ta.splitlines()) == sorted(tb.splitlines()):
         return [(known[0], la, f"session {sess_name}: `{la}` differs only in the order of emitted blocks", udiff(ta, tb))]
     if op in ("replace", "replace_all") and k < len(a) and k < len(b) and a[k][0] == b[k][0] \
